@@ -19,6 +19,7 @@
 -/
 import Ptx.Proofs.Restrict
 import Ptx.Proofs.Back
+import Ptx.Proofs.BackQ
 import Ptx.Sem.Frames
 namespace Ptx.Props.C04
 open Ptx
@@ -91,6 +92,21 @@ theorem C04_modal_rule_backward {L : LogicData} {M : Struct}
     (e : Env M.D) (σ : Nat → M.W) (hdone : ModalDone L M e σ mo A var w0 r) :
     satNode L M e σ (.sent s d (some w0)) :=
   modal_rule_back hT hM hm hmo hd hr var e σ hdone
+
+
+/-- Quantifier rules, BACKWARD half, for every nonempty domain (no bound on its size): satisfied
+    extensions — as is, for SOME constant, or for every domain element a constant whose instance has
+    the same body value (`QuantDone`) — make the quantified node satisfied.  With the forward half:
+    exactness over all domains, via the ≤ 15 value profiles the kernel enumerates per rule row. -/
+theorem C04_quant_rule_backward {L : LogicData} {M : Struct}
+    (hT : L.tablesTotalB = true) (hM : M.Interp L) (hq : L.quantified = true)
+    {s : Sent} {d : Option Bool} {w : Option Nat} {q : Quant} {ng : Bool} {vi vs : Nat} {body : Sent} {r : Rule}
+    (hd : s.decomp = some (.quant q, ng, .quant q vi vs body))
+    (hok : (Sent.quant q vi vs body).quantOK L = true)
+    (hr : L.ruleCompleteB ⟨.quant q, ng, d⟩ r = true)
+    (e : Env M.D) (σ : Nat → M.W) (hdone : QuantDone L M e σ q vi vs body w r) :
+    satNode L M e σ (.sent s d w) :=
+  quant_rule_back hT hM hq hd hok hr e σ hdone
 
 /-- Quantifier rules, for every nonempty domain (no bound on its size): a satisfied node has a
     satisfied extension, after interpreting a fresh witness constant suitably (new-constant
